@@ -4,7 +4,7 @@ src = sys.argv[1].rstrip("/")            # e.g. /tmp/mut/C10/m1
 prop = os.path.basename(os.path.dirname(src)); k = os.path.basename(src)
 conf = open(os.path.join(src, "confirm.txt")).read().strip()
 assert "apply=ok" in conf and "demo_clean=0" in conf and "missing=[]" in conf and "demo_mut=0" not in conf, conf
-dst = f"/verif/seeded/{prop}-{k}"
+dst = f"/verif/seeded/{prop}-" + (os.environ.get("MUT_TAG", "") + k)
 os.makedirs(dst, exist_ok=True)
 for f in os.listdir(src):
     if f in ("patch.diff", "demo.py", "demo.sh", "demo.cpp", "meta.json") or f.startswith("demo"):
